@@ -85,7 +85,11 @@ def get_yaml_default_loader():
 def yaml_load(stream):
     import yaml
 
-    value = yaml.load(stream, Loader=get_yaml_default_loader())
+    try:
+        value = yaml.load(stream, Loader=get_yaml_default_loader())
+    except ValueError as ex:
+        # not every failure in PyYAML is a YAMLError, e.g. int("", 2) for "0b_" or a lone surrogate that cannot be encoded
+        raise yaml.YAMLError(f"{type(ex).__name__}: {ex}") from ex
     if isinstance(value, dict) and value and all(v is None for v in value.values()):
         if len(value) == 1 and stream.strip() == next(iter(value.keys())) + ":":
             value = stream
